@@ -77,6 +77,7 @@ type State struct {
 	next   Term // allocation frontier: every address existing in this state is below it
 	pcSet  map[string]bool
 	hinted map[string]bool
+	ensStart int // length of pc when postcondition checking began (0 = not yet)
 	atServe map[string]Term // heaps right before the first ServeHTTP event
 }
 
@@ -1282,6 +1283,7 @@ func (x *Exec) doReturn(st *State, in *ssa.Return) {
 		results = append(results, x.val(st, r))
 	}
 	env := x.postEnv(st, results)
+	st.ensStart = len(st.pc)
 	for i, c := range x.c.Ensures {
 		if x.c.TrustedPost {
 			x.trusted["postconditions of "+x.fname+" are assumed (body checked for safety only): "+x.c.TrustWhy] = true
